@@ -25,6 +25,30 @@ def gen(rng, tier):
         for s in seeds:
             yield Case("bip44", [fam, m, var, hx(s), "D"], "default-" + fam)
             yield Case("bip44", [fam, m, var, hx(s), "P,C,A0"], "account-" + fam)
+    # output-dependent: Taproot output keys with a leading zero byte (fixed 32-byte witness program)
+    for m in ("BITCOIN", "BITCOIN_TESTNET") if tier == "quick" else ("BITCOIN", "BITCOIN_TESTNET", "BITCOIN_REGTEST"):
+        for s in _taproot_leading_zero_seeds(rng, m, 1 if tier == "quick" else 6):
+            yield Case("bip44", ["Bip86", m, "-", hx(s), "D"], "taproot-leading-zero")
+
+
+def _taproot_leading_zero_seeds(rng, coin_member, want):
+    """seeds whose BIP-86 default-path output key Q = lift_x(P) + H_TapTweak(P.x)·G starts with a zero byte; Q is computed with
+    hashlib and coincurve directly (not through the address classes under test)"""
+    import hashlib
+    from coincurve import PublicKey
+    from bip_utils import Bip86, Bip86Coins
+    tag = hashlib.sha256(b"TapTweak").digest()
+    out = []
+    for _ in range(4000):
+        seed = rand_seed(rng)
+        x = Bip86.FromSeed(seed, Bip86Coins[coin_member]).DeriveDefaultPath().PublicKey().RawCompressed().ToBytes()[1:]
+        t = hashlib.sha256(tag + tag + x).digest()
+        q = PublicKey(b"\x02" + x).add(t).format(compressed=True)[1:]
+        if q[0] == 0:
+            out.append(seed)
+            if len(out) == want:
+                break
+    return out
 
 
 def relations(rng, tier, rpt):
@@ -80,6 +104,28 @@ def relations(rng, tier, rpt):
                 if k != pk.Raw().ToBytes() or gm != want_mode or w != ref:
                     rep("WIF does not round-trip (key, compression mode) under the coin's version byte", "%s.%s mode=%s" % (r["family"], r["member"], want_mode),
                         "%s %s %s" % (w, k.hex(), gm), "%s %s %s" % (ref, pk.Raw().ToHex(), want_mode))
+    # the coin constants are the same after the flows as before them: wrappers that specialise a configuration (CardanoShelley for
+    # CIP-1852, the toggles above) must leave the shared configuration objects as they found them
+    from bip_utils import CardanoShelley, Cip1852, Cip1852Coins, Bip44Changes
+    snap0 = json.dumps(rows(), sort_keys=True, default=str)
+    for coin in Cip1852Coins:
+        acc = Cip1852.FromSeed(seed, coin).Purpose().Coin().Account(0)
+        sh = CardanoShelley.FromCip1852Object(acc)
+        sh.Change(Bip44Changes.CHAIN_EXT).AddressIndex(0).PublicKeys().ToAddress()
+        sh.StakingObject().PublicKey().ToAddress()
+        try:
+            plain = acc.Change(Bip44Changes.CHAIN_EXT).AddressIndex(0).PublicKey().ToAddress()
+            rep("a plain CIP-1852 object yields an address although its format needs the staking key (configuration changed by a wrapper?)", coin.name, plain, "ValueError")
+        except ValueError:
+            pass
+    try:
+        snap1 = json.dumps(rows(), sort_keys=True, default=str)
+    except Exception as ex:  # noqa  the table can no longer be read with the vocabulary it was read with before the flows
+        snap1 = json.dumps([{"family": "?", "member": "?", "error": "%s: %s" % (type(ex).__name__, ex)}])
+    if snap0 != snap1:
+        a, b = json.loads(snap0), json.loads(snap1)
+        diff = [(x["family"], x["member"], [k for k in x if x.get(k) != y.get(k)]) for x, y in zip(a, b) if x != y] or b[:1]
+        rep("coin constants differ after the end-to-end flows (a wrapper edited a shared configuration object)", "Cip1852 + CardanoShelley flows", str(diff[:4]), "unchanged")
     rpt.extra["impl_end_to_end_checks"] = n
     return bad[:8]
 
